@@ -336,6 +336,38 @@ func (c *Ctx) entryFacts(b *ssa.BasicBlock, depth int) map[string]bool {
 	return out
 }
 
+// condFacts: the entry facts that hold when the boolean value v is true.
+func (c *Ctx) condFacts(v ssa.Value, depth int) map[string]bool {
+	out := map[string]bool{}
+	switch x := v.(type) {
+	case *ssa.Call:
+		if methodName(x) == "Defined" && x.Common().IsInvoke() {
+			r := nf(x.Common().Value)
+			if strings.HasSuffix(r, ".GetClock()") {
+				out["defined("+strings.TrimSuffix(r, ".GetClock()")+")"] = true
+			}
+		} else if depth < 3 {
+			for k := range c.trueFacts(x, depth) {
+				out[k] = true
+			}
+		}
+	case *ssa.BinOp:
+		if x.Op == token.NEQ {
+			a, b := x.X, x.Y
+			if isNilConst(a) {
+				a, b = b, a
+			}
+			if isNilConst(b) {
+				r := nf(a)
+				if strings.HasSuffix(r, ".GetIdentity().Signatures") {
+					out["sig("+strings.TrimSuffix(r, ".GetIdentity().Signatures")+")"] = true
+				}
+			}
+		}
+	}
+	return out
+}
+
 // trueFacts: the entry facts that hold whenever the repo function called here returns true
 // (first result), translated to the caller's arguments.
 func (c *Ctx) trueFacts(call *ssa.Call, depth int) map[string]bool {
@@ -352,23 +384,39 @@ func (c *Ctx) trueFacts(call *ssa.Call, depth int) map[string]bool {
 		if !ok || len(r.Results) == 0 {
 			return
 		}
-		mayBeTrue := false
-		for _, v := range resolveSpill(r.Results[0]) {
-			k, isK := v.(*ssa.Const)
-			if !isK || k.Value == nil || k.Value.ExactString() != "false" {
-				mayBeTrue = true
+		// every way the result can be true: the facts that dominate it, plus what the value
+		// itself says (`return id != nil && id.Signatures != nil` is a phi of false and a test)
+		var alts []map[string]bool
+		var walk func(v ssa.Value, at *ssa.BasicBlock, n int)
+		walk = func(v ssa.Value, at *ssa.BasicBlock, n int) {
+			if k, isK := v.(*ssa.Const); isK && k.Value != nil && k.Value.ExactString() == "false" {
+				return
 			}
+			if phi, isPhi := v.(*ssa.Phi); isPhi && n < 4 {
+				for i, e := range phi.Edges {
+					if i < len(phi.Block().Preds) {
+						walk(e, phi.Block().Preds[i], n+1)
+					}
+				}
+				return
+			}
+			fs := c.entryFacts(at, depth+1)
+			for k := range c.condFacts(v, depth+1) {
+				fs[k] = true
+			}
+			alts = append(alts, fs)
 		}
-		if !mayBeTrue {
-			return
+		for _, v := range resolveSpill(r.Results[0]) {
+			walk(v, r.Block(), 0)
 		}
-		fs := c.entryFacts(r.Block(), depth+1)
-		if acc == nil {
-			acc = fs
-		} else {
-			for k := range acc {
-				if !fs[k] {
-					delete(acc, k)
+		for _, fs := range alts {
+			if acc == nil {
+				acc = fs
+			} else {
+				for k := range acc {
+					if !fs[k] {
+						delete(acc, k)
+					}
 				}
 			}
 		}
